@@ -55,6 +55,16 @@ theorem writer_log_ordered (p : Params) (evs : List Ev) (hne : NoEvict p (init :
     ofKey a (close p (run p evs (init : St A Rk))).log = hist a evs :=
   closed_log p evs hne a
 
+/-- the invariant behind it, at every moment of every schedule: each entry pushed for `a` is in exactly one of
+    log / parked / channel / accumulator, and reading them in that order gives `a`'s pushes in push order
+    (together with: a key with a batch in flight is in the popularity list) -/
+theorem writer_view_invariant (p : Params) (evs : List Ev) (hne : NoEvict p (init : St A Rk) evs) :
+    (∀ a, view (run p evs (init : St A Rk)) a = hist a evs) ∧ Inv (run p evs (init : St A Rk)) := by
+  obtain ⟨h1, h2⟩ := view_run p evs (init : St A Rk) inv_init hne
+  refine ⟨fun a => ?_, h2⟩
+  rw [h1 a]
+  simp [view, init, St.log, A.get_empty]
+
 /-- `purge` cannot evict before `B · (R+1)(R+2)/2` entries have been pushed, whatever the schedule -/
 theorem no_evict_below_rank_bound (p : Params) (evs : List Ev) (hb : pushCount evs < p.B * tri (p.R + 1)) :
     NoEvict p (init : St A Rk) evs :=
@@ -109,8 +119,8 @@ def realParams : Params :=
     M := Generated.gsfaPeriodicSlot.getD 0, T := Generated.gsfaPeriodicValues.getD 0, R := Generated.gsfaRankListSize.getD 0 }
 
 theorem bound_closed_form (B R n : Nat) (h : 2 * n < B * ((R + 1) * (R + 2))) : n < B * tri (R + 1) := by
-  have h2 : 2 * (B * tri (R + 1)) = B * ((R + 1) * (R + 1 + 1)) := by
-    rw [← two_tri (R + 1), Nat.mul_left_comm]
+  have h2 : 2 * (B * tri (R + 1)) = B * ((R + 1) * (R + 2)) := by
+    rw [show R + 2 = R + 1 + 1 from rfl, ← two_tri (R + 1), Nat.mul_left_comm]
   omega
 
 /-- **C06 at the thresholds of the tree**, the rank bound in closed form
@@ -173,6 +183,28 @@ example : ∃ idx : LogSt Hf, index Af Rf Hf Zid exP exEvs = .ok idx ∧
     decide
   · rw [gsfa_roundtrip_bounded_rank Zid Zid_lawful exP exCalls exEvs ex_sched ex_bound idx hidx hrec 5 100 (by decide)]
     decide
+
+/-- non-vacuity of `gsfa_roundtrip_real_thresholds` / `bound_closed_form`: the same history at the thresholds of
+    the tree (nothing reaches a threshold: one record per address) -/
+example : ∃ idx : LogSt Hf, index Af Rf Hf Zid realParams exEvs = .ok idx ∧
+    readerGet Zid idx 7 3 = .ok [mkE 6, mkE 4, mkE 3] := by
+  have h : (match index Af Rf Hf Zid realParams exEvs with
+      | .ok idx => decide (∀ r ∈ idx.rrecs, r.length < 2 ^ 32)
+      | .error _ => false) = true := by decide
+  revert h
+  cases hi : index Af Rf Hf Zid realParams exEvs with
+  | error e => intro h; cases h
+  | ok idx =>
+    intro h
+    refine ⟨idx, rfl, ?_⟩
+    rw [gsfa_roundtrip_real_thresholds Zid Zid_lawful exCalls exEvs ex_sched (by decide) idx hi (of_decide_eq_true h) 7 3
+      (by decide)]
+    decide
+
+/-- non-vacuity of `writer_view_invariant`: in the middle of the run (before `Close`) the view is the history -/
+example : view (run exP (exEvs.take 12) (init : St Af Rf)) 7 = [mkE 1, mkE 2, mkE 3, mkE 4] := by
+  rw [(writer_view_invariant exP (exEvs.take 12) (no_evict_below_rank_bound exP _ (by decide))).1 7]
+  decide
 
 /-- non-vacuity of `writer_log_ordered` / `no_evict_below_rank_bound` -/
 example : ofKey 7 (close exP (run exP exEvs (init : St Af Rf))).log = [mkE 1, mkE 2, mkE 3, mkE 4, mkE 6] := by
